@@ -12,7 +12,6 @@ import (
 	"bytes"
 	"context"
 	"crypto/ecdsa"
-	"crypto/elliptic"
 	"crypto/rand"
 	"crypto/sha256"
 	"crypto/x509"
@@ -94,6 +93,9 @@ type driver struct {
 	stats   map[string]int
 	tsFn    func() int64
 	enum    int // history number (systematic scenarios)
+	multi   bool // more than one instance may be live (scenarios two, startup): refusals can be legitimate
+	rcN     int
+	seeds   [][]byte // 32-byte seeds the log keys are derived from (cmd/recompute-cache needs them)
 }
 
 func (d *driver) clock() int64 {
@@ -224,15 +226,41 @@ func (d *driver) load(li *logInst, keepCacheOf int) error {
 	}
 	d.w.mu.Lock()
 	d.w.logf(nil, "ev|start|%d|%s|%d|%d|%s", li.in.id, li.name, li.keyID, li.pool, keep)
+	var pubBefore, lockBefore cpTuple
+	if o, ok := d.w.objects["checkpoint"]; ok {
+		pubBefore = d.w.canon.parse(o.data)
+	}
+	for _, v := range d.w.lock {
+		if t := d.w.canon.parse(v); t.ok && t.key == li.keyID && t.origin == li.name {
+			lockBefore = t
+		}
+	}
 	d.w.mu.Unlock()
 	l, err := ctlog.LoadLog(context.Background(), li.cfg)
 	d.w.mu.Lock()
+	if err == nil && !li.in.dead && !d.multi && pubBefore.ok && lockBefore.ok && pubBefore.key == li.keyID && pubBefore.origin == li.name {
+		// C06: an instance must not start on a lock checkpoint that a signed, published checkpoint contradicts
+		d.w.mon.checks["C06.refuse"]++
+		if pubBefore.size > lockBefore.size || (pubBefore.size == lockBefore.size && pubBefore.root != lockBefore.root) {
+			d.w.mon.fail("C06 LoadLog started on lock checkpoint (size %d, root %x) although object storage publishes the signed checkpoint (size %d, root %x)",
+				lockBefore.size, lockBefore.root[:6], pubBefore.size, pubBefore.root[:6])
+		}
+	}
 	if li.in.dead {
 		d.w.mu.Unlock()
 		return errDead
 	}
 	if err != nil {
 		c := classifyLoad(err)
+		// C03: without faults, tampering or a second writer, whatever a crash left behind must load
+		d.w.mon.checks["C03.recover"]++
+		if li.in.nfaults == 0 && !d.w.mon.tampered && !d.multi {
+			switch {
+			case c == "staging-fetch", c == "apply-staged", c == "edge", c == "data", c == "hash-mismatch",
+				c == "storage-ahead", c == "legacy-staging", strings.HasPrefix(c, "other:"):
+				d.w.mon.fail("C03 a fault-free restart was refused (%s): the state left in storage is not recoverable", c)
+			}
+		}
 		// the model distinguishes verify/fetch for edge and data tiles; compare coarsely
 		d.w.logf(nil, "> load %d fail %s", li.in.id, c)
 		d.w.mu.Unlock()
@@ -321,10 +349,10 @@ func classifyAck(err error) string {
 		return "ratelimit"
 	case ctlog.VerifIsFatal(err):
 		return "fatal"
+	case strings.Contains(err.Error(), "failed to upload issuer"):
+		return "issuer" // whatever made the upload fail, a cancelled request included
 	case errors.Is(err, context.Canceled):
 		return "canceled"
-	case strings.Contains(err.Error(), "failed to upload issuer"):
-		return "issuer"
 	}
 	return "nonfatal"
 }
@@ -350,8 +378,19 @@ func (d *driver) submitOpt(li *logInst, e *ctlog.PendingLogEntry, low bool, doSy
 	li.in.subFaults = nil
 	wid := d.nextWid
 	d.nextWid++
+	stopped := li.log != nil && !li.running && !li.in.dead // RunSequencer has returned before this submission
+	sctx, scancel := context.WithCancel(context.Background())
+	li.in.subCancel = scancel
+	li.in.cancelOnFail = d.r.Intn(2) == 0
 	w.mu.Unlock()
-	f, src := li.log.VerifAddLeafToPool(context.Background(), e, low)
+	f, src := li.log.VerifAddLeafToPool(sctx, e, low)
+	w.mu.Lock()
+	li.in.subCancel = nil
+	if sctx.Err() != nil {
+		d.stats["submit-context-cancelled"]++
+	}
+	w.mu.Unlock()
+	_ = scancel
 	wt := &waiter{wid: wid, inst: li, entry: e}
 	d.waiters = append(d.waiters, wt)
 	d.stats["submit:"+src]++
@@ -375,6 +414,12 @@ func (d *driver) submitOpt(li *logInst, e *ctlog.PendingLogEntry, low bool, doSy
 		w.mu.Lock()
 		defer w.mu.Unlock()
 		wt.done = true
+		if stopped {
+			w.mon.checks["C17.afterstop"]++
+			if err == nil {
+				w.mon.fail("C17 a submission made after the sequencer had stopped succeeded (source %s, index %d)", src, le.LeafIndex)
+			}
+		}
 		if err != nil {
 			wt.line = fmt.Sprintf("ack %d err:%s", wid, classifyAck(err))
 		} else {
@@ -607,6 +652,7 @@ func main() {
 	outPath := flag.String("out", "", "history file")
 	only := flag.String("scenario", "", "run only this scenario kind")
 	enumBase := flag.Int("enumbase", 0, "first history number for systematic scenarios")
+	flag.StringVar(&recomputeBin, "recompute-bin", "", "path of the cmd/recompute-cache binary built from /repo")
 	flag.Parse()
 	// LoadLog leaks its SQLite connections when it fails after opening the cache, and the sqlite
 	// package panics from a finalizer for every unclosed connection: run without GC (short-lived process).
@@ -664,10 +710,8 @@ func newDriver(seed int64, dir string) *driver {
 	os.MkdirAll(dir, 0o755)
 	d := &driver{r: mrand.New(mrand.NewSource(seed)), seqs: map[int64]*logInst{}, dir: dir, stats: map[string]int{}}
 	for i := 0; i < 2; i++ {
-		k, err := ecdsa.GenerateKey(elliptic.P256(), rand.Reader)
-		if err != nil {
-			panic(err)
-		}
+		seed, k := seededKey()
+		d.seeds = append(d.seeds, seed)
 		d.keys = append(d.keys, k)
 	}
 	wk, err := mldsa.GenerateKey(mldsa.MLDSA44())
